@@ -224,8 +224,13 @@ def run(ix, R):
                 why.append('native selection is %s' % fmt(fl, filt))
             if not (fl.tab.equal(co.args[0], pe['T']) and fl.tab.equal(co.args[1], pe['P'])):
                 why.append('compute_opacity(%s)' % [fmt(fl, a) for a in co.args])
-            orig = [e for e in fl.of('assign') if e.name == 'orig']
-            o = one(orig, 'orig')
+            # the native opacities: whatever name the result of compute_opacity(...) is bound to
+            cov = fl.tab.atom('call', tuple(co.args), extra=('fn:self.compute_opacity',))
+            orig = [e for e in fl.of('assign') if e.value is not None and (fl.tab.equal(e.value, cov) or (
+                e.value.single_atom() is not None and e.value.mentions(
+                    lambda a: a.head == 'call' and a.extra and a.extra[0] == 'fn:self.compute_opacity') and
+                atom_of(fl, e.value).head == 'mcall' and atom_of(fl, e.value).extra[0] == 'fn:reshape'))]
+            o = one(orig, 'binding of the compute_opacity result')
             same = [r for r in rets if fl.tab.equal(r.value, o.value) or
                     (isinstance(r.value_ast, ast.Name) and r.value_ast.id == o.name)]
             # every path that returns the native opacities unchanged must be licensed by
@@ -259,7 +264,10 @@ def run(ix, R):
                 ic = one(calls(fl, 'interp1d'), 'interp1d call')
                 ok = fl.tab.equal(ic.args[0], spec(fl, 'self.wavenumberGrid[F]', {'F': filt})) and \
                     fl.tab.equal(ic.args[1], o.value) and ic.kw.get('axis') is not None and ic.kw['axis'].const() == 0 \
-                    and 'f(' in unparse(r2.value_ast)
+                    and r2.value is not None and any(
+                        fl.tab.atoms[a].head == 'callexpr' and 'interp1d' in fl.tab.fmt_atom(a)[:40] and
+                        len(fl.tab.atoms[a].args) == 2 and fl.tab.equal(fl.tab.atoms[a].args[1], pe['w'])
+                        for a in r2.value.all_atoms())
             R.check('3.interp', 'ALG', site,
                     'otherwise the value is interpolated over exactly the selected native points and their opacities',
                     ok, key=fmt(fl, r2.value)[:160], detail=fmt(fl, r2.value)[:300], loc=f.loc(r2.node))
